@@ -4,7 +4,7 @@ from __future__ import annotations
 import itertools
 import os
 
-from mc import recs, selgrammar
+from mc import recs, refsel, selgrammar
 from mc.faults import drain
 from mc.obs import obs, obs_list
 from mc.recs import rs
@@ -96,6 +96,12 @@ def run_hist(case):
                 viol.append(("C10:match-modified-record:%s" % engine, case, {"expr": expr, "record": i}))
             states.append(jhash([expr, engine, matcher_canon(sel, engine)]))
         want = result_of(fresh, rr[hist[-1]])
+        # a process-wide cache makes a "fresh" selector wrong in the same way: where the reference meaning is defined the
+        # result must also be *right* after the history
+        ref = refsel.evaluate(expr, rr[hist[-1]]) if len(hist) > 1 and last[0] == "v" else ("undefined",)
+        if ref[0] == "value" and (engine == "interpreted" or not refsel.type_in_container(expr)) and refsel.in_language(expr, compiled=(engine == "compiled")) \
+                and not refsel.identity_on_literal(expr) and last[1] != ref[1]:
+            viol.append(("C10:wrong-after-history:%s" % engine, case, {"expr": expr, "history": hist, "got": last[1], "reference": ref[1]}))
         if last != want:
             viol.append(("C10:history-dependent:%s:%s->%s" % (engine, "".join(map(str, want))[:12], "".join(map(str, last))[:12]), case,
                          {"expr": expr, "history": hist, "with_history": last, "fresh": want}))
@@ -112,6 +118,7 @@ VALS = {
     "Xn": rs("t/a", [["string", "a"], ["varint", "n"]], ["'X'", "None"]),
     "B": rs("t/b", [["string", "b"], ["string[]", "l"]], ["'x'", "['x', 'q']"]),
     "x3": rs("t/a", [["string", "a"], ["varint", "n"]], ["'xx'", "3"]),
+    "x9": rs("t/a", [["string", "a"], ["varint", "n"]], ["'x'", "9"]),  # equals x1 when n is ignored for comparison
 }
 ADAPTERS = {
     "streamreader": ["x1", "y2", "Xn", "B"],
@@ -132,7 +139,7 @@ ASEL = ["r.n == 1", "r.n > 1", "r.a == 'x'", "'x' in r.a", "lower(r.a) == 'x'", 
         "r.b == 'x' or r.a == 'y'", "any(x == 'q' for x in r.l)", "r.n + 1 == 3", "1 < r.n < 3", "r._source == None", "Type.varint >= 2",
         "field_regex(r, ['a', 'b'], '^x')", "has_field(r, 'l')", "names(r) == names(r)", "r.n < 'a'",
         "r.n == 1 or name(r) == 't/b'", "r.zz == 1 or True", "r.n == 2 or has_field(r, 'b')", "r.n == 1 or Type.string == 'x'", "not r.n == 1",
-        "r.n is not None", "r.zz != 1 or name(r) == 't/b'", "any(f.name == 'l' for f in fields('string[]'))", "field_contains(r, ['b', 'a'], ['x'])"]
+        "r.n is not None", "r.zz != 1 or name(r) == 't/b'", "r.n == 9", "r.n != 9 and r.a == 'x'", "any(f.name == 'l' for f in fields('string[]'))", "field_contains(r, ['b', 'a'], ['x'])"]
 _n = [0]
 
 
@@ -202,6 +209,19 @@ def read_all(adapter, p, selector=None):
 
 
 def run_adapter(case):
+    from flow.record import base
+    from flow.record.selector import CompiledSelector, Selector
+
+    if case.get("ignore"):
+        base.set_ignored_fields_for_comparison(case["ignore"])
+        try:
+            return _run_adapter(case)
+        finally:
+            base.set_ignored_fields_for_comparison([])
+    return _run_adapter(case)
+
+
+def _run_adapter(case):
     from flow.record.selector import CompiledSelector, Selector
 
     h = jhash(case)
@@ -271,6 +291,11 @@ def cases(tier):
                 if adapter in ("avro", "avro-url+fileobj") and k == 0:
                     continue
                 yield {"kind": "adapter", "adapter": adapter, "seq": list(seq)}
+    # the same under an active comparison-ignore configuration: records that differ only in an ignored field are "equal"
+    for adapter in ("streamreader", "path", "path.gz", "fileobj", "jsonfile", "sqlite"):
+        for k in (2, 3):
+            for seq in itertools.product(["x1", "x9", "y2"], repeat=k):
+                yield {"kind": "adapter", "adapter": adapter, "seq": list(seq), "ignore": ["n", "_generated", "_source"]}
 
 
 def main(tier, seed, workers=None):
